@@ -213,19 +213,24 @@ def _helper_locals(h):
 
 
 def _returns_to(stmts, sink):
-    """Rewrite a statement list whose every path ends in `return e` so that the value goes to sink(e) instead.
-    Returns the new list or None when the shape is not supported."""
-    if not stmts:
-        return None
+    """Rewrite a statement list (a function body) so that the value of every `return e` goes to sink(e) instead; falling off
+    the end is `return None`.  Returns the new list or None when the shape is not supported."""
     idx = None
     for i, s in enumerate(stmts):
         if any(isinstance(n, ast.Return) for n in ast.walk(s)):
             idx = i
             break
     if idx is None:
-        return None
+        return list(stmts) + sink(ast.Constant(None))
     s = stmts[idx]
     head = stmts[:idx]
+
+    def cond(test, a, b):
+        if not a and not b:
+            return [] if is_pure(test) else [ast.Expr(value=test)]
+        if not a:
+            return [ast.If(test=negate(test), body=b, orelse=[])]
+        return [ast.If(test=test, body=a, orelse=b)]
     if isinstance(s, ast.Return):
         if idx != len(stmts) - 1:
             return None
@@ -238,14 +243,32 @@ def _returns_to(stmts, sink):
             b = _returns_to(s.orelse, sink)
             if a is None or b is None:
                 return None
-            return head + [ast.If(test=s.test, body=a, orelse=b)]
+            return head + cond(s.test, a, b)
         if not exits(s.body):
             return None
         a = _returns_to(s.body, sink)
         b = _returns_to(stmts[idx + 1:], sink)
         if a is None or b is None:
             return None
-        return head + [ast.If(test=s.test, body=a, orelse=b)]
+        return head + cond(s.test, a, b)
+    return None
+
+
+def _replace_node(root, old, new):
+    """Replace node `old` (found by identity below root) by `new`; returns an undo function, or None if not found."""
+    for parent in ast.walk(root):
+        for fld, val in ast.iter_fields(parent):
+            if val is old:
+                setattr(parent, fld, new)
+                return lambda: setattr(parent, fld, old)
+            if isinstance(val, list):
+                for i, x in enumerate(val):
+                    if x is old:
+                        val[i] = new
+
+                        def undo(val=val, i=i):
+                            val[i] = old
+                        return undo
     return None
 
 
@@ -324,14 +347,24 @@ class Inliner:
         loc = _helper_locals(hh)
         if loc & set(m):
             return None          # a parameter is rebound inside the helper
-        # arguments substituted more than once must be pure
-        uses = {}
-        for n in ast.walk(hh):
-            if isinstance(n, ast.Name) and isinstance(n.ctx, ast.Load) and n.id in m:
-                uses[n.id] = uses.get(n.id, 0) + 1
-        for p, v in m.items():
-            if uses.get(p, 0) > 1 and not is_pure(v):
-                return None
+        # the arguments are evaluated once, in order, before the body: when one of them has effects, every argument that
+        # is not a plain name / constant is first bound to a temporary (in call order)
+        pre = []
+        if any(not is_pure(v) for v in m.values()):
+            order = [x.arg for x in hh.args.posonlyargs + hh.args.args + hh.args.kwonlyargs]
+            given = [p for p in order if p in m]
+            # keep the order in which the call evaluates them: positional first, then keywords as written
+            kwpos = {k.arg: i for i, k in enumerate(call.keywords)}
+            npos = len(call.args) + got[1]
+            given.sort(key=lambda p: (0, order.index(p)) if order.index(p) < npos else (1, kwpos.get(p, 10 ** 6)))
+            for p in given:
+                v = m[p]
+                if isinstance(v, (ast.Name, ast.Constant)) or p in (set(order) - set(order[:npos]) - set(kwpos)):
+                    continue
+                self.n += 1
+                tmp = "__a%d_%s" % (self.n, p)
+                pre.append(ast.Assign(targets=[ast.Name(id=tmp, ctx=ast.Store())], value=v))
+                m[p] = ast.Name(id=tmp, ctx=ast.Load())
         self.n += 1
         ren = {x: "__h%d_%s" % (self.n, x) for x in loc}
         for n in ast.walk(hh):
@@ -340,12 +373,12 @@ class Inliner:
         body = [_Subst(m).visit(s) for s in hh.body]
         has_return = any(isinstance(n, ast.Return) for s in body for n in ast.walk(s))
         if not has_return:
-            return body + sink(ast.Constant(None)) if sink is not None else body
+            return pre + (body + sink(ast.Constant(None)) if sink is not None else body)
         if sink is None:
             out = _returns_to(body, lambda v: [])
         else:
             out = _returns_to(body, sink)
-        return out
+        return None if out is None else pre + out
 
     def expr_for(self, h, call):
         hh = copy.deepcopy(h)
@@ -407,7 +440,35 @@ class Inliner:
         ast.fix_missing_locations(fn)
         return fn
 
+    def hoist(self, st):
+        """A call of a statement helper nested inside the expression of a simple statement, reached before anything
+        observable is evaluated, is first bound to a temporary."""
+        if not isinstance(st, (ast.Expr, ast.Return, ast.Assign, ast.AugAssign)):
+            return None
+        for e in _first_evaluated(st):
+            if isinstance(e, ast.Call) and self.lookup(e)[0] is not None:
+                return None                 # a direct call: the statement forms below handle it
+            for c in ast.walk(e):
+                if not isinstance(c, ast.Call):
+                    continue
+                h = self.lookup(c)[0]
+                if h is None or self.expr_for(h, c) is not None:
+                    continue
+                self.n += 1
+                tmp = "__c%d" % self.n
+                undo = _replace_node(st, c, ast.Name(id=tmp, ctx=ast.Load()))
+                if undo is None:
+                    continue
+                if any(_reach(x, tmp) == _FOUND for x in _first_evaluated(st)):
+                    return [ast.Assign(targets=[ast.Name(id=tmp, ctx=ast.Store())], value=c), st]
+                undo()
+            break
+        return None
+
     def stmt(self, st):
+        hs = self.hoist(st)
+        if hs is not None:
+            return hs
         if isinstance(st, ast.Assign) and len(st.targets) == 1 and isinstance(st.value, ast.Call):
             h, _, _ = self.lookup(st.value)
             if h is not None and self.expr_for(h, st.value) is None:
@@ -439,6 +500,10 @@ class _Idioms(ast.NodeTransformer):
         self.generic_visit(n)
         if len(n.targets) == 1 and isinstance(n.targets[0], ast.Name):
             v = n.value
+            x = n.targets[0].id
+            # x = A if c else x   ->   if c: x = A        (any leaf of a nested conditional that is x itself)
+            if isinstance(v, ast.IfExp) and _has_self_leaf(v, x):
+                return [ast.copy_location(z, n) for z in _ifexp_to_stmts(x, v)]
             if isinstance(v, ast.Lambda):
                 return ast.copy_location(ast.FunctionDef(
                     name=n.targets[0].id, args=v.args, body=[ast.Return(value=v.body)], decorator_list=[], returns=None,
@@ -454,6 +519,13 @@ class _Idioms(ast.NodeTransformer):
     def visit_If(self, n):
         self.generic_visit(n)
         n.test = _truth(n.test)
+        if _is_const(n.test, True):
+            return n.body
+        if _is_const(n.test, False):
+            return n.orelse or None
+        if isinstance(n.test, ast.BoolOp) and isinstance(n.test.op, ast.And) and any(_is_const(v, False) for v in n.test.values) \
+                and all(is_pure(v) for v in n.test.values):
+            return n.orelse or None
         # if c: v = True else: v = False
         if len(n.body) == 1 and len(n.orelse) == 1 and isinstance(n.body[0], ast.Assign) and isinstance(n.orelse[0], ast.Assign) \
                 and ast.dump(n.body[0].targets[0]) == ast.dump(n.orelse[0].targets[0]) and _boolish(n.test):
@@ -479,6 +551,40 @@ class _Idioms(ast.NodeTransformer):
     def visit_While(self, n):
         self.generic_visit(n)
         n.test = _truth(n.test)
+        return n
+
+    def visit_BoolOp(self, n):
+        self.generic_visit(n)
+        # True and X -> X ; False or X -> X (only for operands that are themselves boolean-valued, so the VALUE is the same)
+        unit = isinstance(n.op, ast.And)
+        vals = [v for v in n.values if not _is_const(v, unit)]
+        if len(vals) != len(n.values) and vals and all(_boolish(v) for v in vals):
+            if len(vals) == 1:
+                return vals[0]
+            n.values = vals
+        return n
+
+    def visit_BinOp(self, n):
+        self.generic_visit(n)
+        # x + (-c) -> x - c for a numeric constant c (exact for ints, floats and arrays alike)
+        if isinstance(n.op, (ast.Add, ast.Sub)):
+            r = n.right
+            if isinstance(r, ast.UnaryOp) and isinstance(r.op, ast.USub) and isinstance(r.operand, ast.Constant) \
+                    and isinstance(r.operand.value, (int, float)) and not isinstance(r.operand.value, bool):
+                n.op = ast.Sub() if isinstance(n.op, ast.Add) else ast.Add()
+                n.right = r.operand
+            elif isinstance(r, ast.Constant) and isinstance(r.value, (int, float)) and not isinstance(r.value, bool) and r.value < 0:
+                n.op = ast.Sub() if isinstance(n.op, ast.Add) else ast.Add()
+                n.right = ast.Constant(-r.value)
+        return n
+
+    def visit_Call(self, n):
+        self.generic_visit(n)
+        # sorted(list(X)) / sorted(tuple(X)) -> sorted(X); likewise set, frozenset, sum, min, max, len over list(X)/tuple(X)
+        if isinstance(n.func, ast.Name) and n.func.id in ("sorted", "set", "frozenset", "sum", "min", "max", "list", "tuple") \
+                and len(n.args) == 1 and not n.keywords and isinstance(n.args[0], ast.Call) and isinstance(n.args[0].func, ast.Name) \
+                and n.args[0].func.id in ("list", "tuple") and len(n.args[0].args) == 1 and not n.args[0].keywords:
+            n.args = [n.args[0].args[0]]
         return n
 
     def visit_IfExp(self, n):
@@ -561,6 +667,25 @@ def _bind_sig(sig, call):
 
 def _is_const(e, v):
     return isinstance(e, ast.Constant) and e.value is v
+
+
+def _has_self_leaf(v, x):
+    if isinstance(v, ast.IfExp):
+        return _has_self_leaf(v.body, x) or _has_self_leaf(v.orelse, x)
+    return isinstance(v, ast.Name) and v.id == x
+
+
+def _ifexp_to_stmts(x, v):
+    if isinstance(v, ast.Name) and v.id == x:
+        return []
+    if isinstance(v, ast.IfExp) and _has_self_leaf(v, x):
+        a, b = _ifexp_to_stmts(x, v.body), _ifexp_to_stmts(x, v.orelse)
+        if not a and not b:
+            return []
+        if not a:
+            return [ast.If(test=negate(v.test), body=b, orelse=[])]
+        return [ast.If(test=v.test, body=a, orelse=b)]
+    return [ast.Assign(targets=[ast.Name(id=x, ctx=ast.Store())], value=v)]
 
 
 def _boolish(e):
@@ -993,6 +1118,121 @@ def _value_like(e):
     return True
 
 
+IMMUTABLE_FUNCS = {"len", "float", "int", "round", "min", "max", "abs", "bool", "str", "sum", "isinstance", "type", "hasattr",
+                   "repr", "tuple", "frozenset", "range"}
+IMMUTABLE_METHODS = {"order", "total_weight", "number_of_nodes", "number_of_edges", "has_node", "has_edge", "count", "index",
+                     "is_directed", "is_multigraph", "__contains__", "lower", "upper", "format", "size"}
+
+
+NUMERIC_FUNCS = {"len", "float", "int", "round", "abs", "bool", "sum"}
+NUMERIC_METHODS = {"order", "total_weight", "number_of_nodes", "number_of_edges", "count", "index", "size"}
+
+
+def _numeric(e):
+    """e certainly evaluates to a Python number / bool (never an array or another mutable object)."""
+    if isinstance(e, ast.Constant):
+        return isinstance(e.value, (int, float, bool))
+    if isinstance(e, ast.Call):
+        ch = _chain(e.func) or ""
+        meth = e.func.attr if isinstance(e.func, ast.Attribute) else None
+        return ch in NUMERIC_FUNCS or ch.startswith("math.") or ch in ("random.random", "random.expovariate", "random.uniform") \
+            or (meth is not None and meth in NUMERIC_METHODS)
+    if isinstance(e, ast.BinOp):
+        return _numeric(e.left) and _numeric(e.right)
+    if isinstance(e, ast.UnaryOp):
+        return isinstance(e.op, ast.Not) or _numeric(e.operand)
+    if isinstance(e, ast.Compare):
+        return False          # numpy comparisons give arrays
+    if isinstance(e, ast.IfExp):
+        return _numeric(e.body) and _numeric(e.orelse)
+    return False
+
+
+def _immutable_result(e):
+    """Evaluating e twice gives the SAME object or equal immutable values: names, constants, attribute / subscript reads
+    (existing objects), tuples of such, calls known to return numbers / strings / tuples, arithmetic on certain numbers.
+    Arithmetic on anything else may allocate (a numpy array), displays and other calls do allocate."""
+    if isinstance(e, (ast.Name, ast.Constant)):
+        return True
+    if isinstance(e, ast.Attribute):
+        return _immutable_result(e.value)
+    if isinstance(e, ast.Subscript):
+        return not isinstance(e.slice, ast.Slice) and _immutable_result(e.value) and _immutable_result(e.slice)
+    if isinstance(e, ast.Tuple):
+        return all(_immutable_result(x) for x in e.elts)
+    if isinstance(e, ast.IfExp):
+        return _immutable_result(e.test) and _immutable_result(e.body) and _immutable_result(e.orelse)
+    if isinstance(e, ast.BoolOp):
+        return all(_immutable_result(x) for x in e.values)
+    if isinstance(e, ast.UnaryOp) and isinstance(e.op, ast.Not):
+        return _immutable_result(e.operand)
+    if isinstance(e, ast.Compare):
+        # identity / membership tests give bools; ordering comparisons of certain numbers too
+        if all(isinstance(o, (ast.Is, ast.IsNot, ast.In, ast.NotIn)) for o in e.ops):
+            return _immutable_result(e.left) and all(_immutable_result(c) for c in e.comparators)
+        return _numeric(e.left) and all(_numeric(c) for c in e.comparators)
+    if isinstance(e, ast.Call):
+        ch = _chain(e.func) or ""
+        meth = e.func.attr if isinstance(e.func, ast.Attribute) else None
+        if ch in IMMUTABLE_FUNCS or ch.startswith("math.") or (meth is not None and meth in IMMUTABLE_METHODS):
+            return all(_immutable_result(a) or True for a in e.args)
+        return False
+    if isinstance(e, (ast.BinOp, ast.UnaryOp)):
+        return _numeric(e)
+    return False
+
+
+_CONSUMERS = ("random.", "np.random.", "numpy.random.", "math.")
+
+
+def _value_only(scope, x):
+    """Every read of x in scope only consumes its VALUE (operand of arithmetic / comparison, index, condition, argument of
+    a function that neither keeps nor changes it): which object carries the value is then unobservable."""
+    parent = {}
+    for n in ast.walk(scope):
+        for c in ast.iter_child_nodes(n):
+            parent[id(c)] = n
+    for n in ast.walk(scope):
+        if not (isinstance(n, ast.Name) and n.id == x and isinstance(n.ctx, ast.Load)):
+            continue
+        cur = n
+        ok = None
+        while ok is None:
+            p = parent.get(id(cur))
+            if p is None:
+                ok = False
+            elif isinstance(p, (ast.BinOp, ast.Compare)) or (isinstance(p, ast.UnaryOp)):
+                ok = True
+            elif isinstance(p, ast.BoolOp) or (isinstance(p, ast.IfExp) and cur is not p.test):
+                cur = p                      # the result may be x itself: look further up
+            elif isinstance(p, ast.IfExp):
+                ok = True
+            elif isinstance(p, ast.Subscript):
+                ok = cur is p.slice
+            elif isinstance(p, (ast.If, ast.While)):
+                ok = cur is p.test
+            elif isinstance(p, (ast.For, ast.comprehension)):
+                ok = cur is p.iter                       # iterating reads the elements, nothing keeps the container
+            elif isinstance(p, ast.AugAssign):
+                ok = cur is p.value
+            elif isinstance(p, ast.keyword):
+                cur = p
+            elif isinstance(p, ast.Call):
+                if cur is p.func:
+                    ok = False
+                else:
+                    ch = _chain(p.func) or ""
+                    ok = ch in PURE_FUNCS or ch in IMMUTABLE_FUNCS or ch.startswith(_CONSUMERS) or \
+                        (ch.startswith(PURE_PREFIX) and not ch.startswith(IMPURE_PREFIX))
+            elif isinstance(p, (ast.FunctionDef, ast.Lambda, ast.ListComp, ast.SetComp, ast.DictComp, ast.GeneratorExp)):
+                ok = False
+            else:
+                ok = False
+        if not ok:
+            return False
+    return True
+
+
 def split_tuples(fn):
     """a, b = (x, y) -> a = x; b = y   and   a, b = X -> a = X[0]; b = X[1]  (X a pure name/subscript/attribute)."""
     for owner, fld in _blocks_of(fn):
@@ -1126,6 +1366,12 @@ def propagate(fn):
                     continue
                 if isinstance(e, ast.Constant) and not isinstance(e.value, (int, float, str, bool, type(None))):
                     continue
+                shareable = _immutable_result(e) or _value_only(scope, x)
+                if not shareable:
+                    # the value may be a fresh mutable object (nx.get_edge_attributes(...), np.array(...), 0*Nk): every use
+                    # must see the SAME object, so it is only moved when it is used exactly once in the whole function
+                    if sum(1 for n in _scope_nodes(scope) if isinstance(n, ast.Name) and n.id == x and isinstance(n.ctx, ast.Load)) != 1:
+                        continue
                 m = {x: e}
                 for s in body[i + 1:]:
                     uses = any(isinstance(n, ast.Name) and n.id == x and isinstance(n.ctx, ast.Load) for n in ast.walk(s))
@@ -1152,7 +1398,8 @@ def propagate(fn):
                             changed_any |= before != ast.dump(s)
                         # common subexpression: a later definition with the same right-hand side becomes a copy of x
                         if (not uses) and isinstance(s, ast.Assign) and len(s.targets) == 1 and isinstance(s.targets[0], ast.Name) \
-                                and s.targets[0].id != x and not isinstance(e, (ast.Name, ast.Constant)) and ast.dump(s.value) == ast.dump(e):
+                                and s.targets[0].id != x and not isinstance(e, (ast.Name, ast.Constant)) and ast.dump(s.value) == ast.dump(e) \
+                                and (_immutable_result(e) or (shareable and _value_only(scope, s.targets[0].id))):
                             s.value = ast.Name(id=x, ctx=ast.Load())
                             changed_any = True
                         if hit:
@@ -1221,7 +1468,7 @@ def forward_stores(fn):
             if not (isinstance(st, ast.Assign) and len(st.targets) == 1 and isinstance(st.targets[0], ast.Subscript)):
                 continue
             tgt = st.targets[0]
-            if not (isinstance(tgt.slice, ast.Name) and _chain(tgt.value) and is_pure(st.value) and _value_like(st.value)):
+            if not (isinstance(tgt.slice, ast.Name) and _chain(tgt.value) and is_pure(st.value)):
                 continue
             if isinstance(st.value, (ast.Tuple, ast.Constant)):
                 continue
@@ -1230,6 +1477,16 @@ def forward_stores(fn):
                 if hasattr(n, "ctx"):
                     n.ctx = ast.Load()
             pat = ast.dump(load)
+            if not isinstance(st.value, ast.Name):
+                # the stored object is first given a name (one evaluation, one object); reads of B[k] then become that name
+                if not any(isinstance(n, ast.Subscript) and isinstance(n.ctx, ast.Load) and ast.dump(n) == pat
+                           for s2 in body[i + 1:] for n in ast.walk(s2)):
+                    continue
+                _sr_counter[0] += 1
+                t = "__st%d" % _sr_counter[0]
+                body.insert(i, ast.copy_location(ast.Assign(targets=[ast.Name(id=t, ctx=ast.Store())], value=st.value), st))
+                st.value = ast.Name(id=t, ctx=ast.Load())
+                changed = True
             val = st.value
 
             class F(ast.NodeTransformer):
@@ -1241,7 +1498,7 @@ def forward_stores(fn):
                         F.hit = True
                         return copy.deepcopy(val)
                     return n
-            for s in body[i + 1:]:
+            for s in body[next(k for k, z in enumerate(body) if z is st) + 1:]:
                 muts = _mutations(s)
                 hit = _invalidates(muts, st.value, "\0") or _invalidates(muts, load, "\0")
                 if isinstance(s, (ast.For, ast.While, ast.If, ast.Try, ast.With, ast.FunctionDef)):
@@ -1622,6 +1879,45 @@ def _mapping_body_ok(body, D, bound):
     return True
 
 
+def merge_copies(fn):
+    """`x = y` (two local names): from here to the end of the block, as long as neither is rebound, x and y are the same
+    object.  When every other read of y lies in that region, those reads are written as x, which leaves y with the copy as
+    its only use (its definition then moves into the copy)."""
+    changed = False
+    for scope in [n for n in ast.walk(fn) if isinstance(n, ast.FunctionDef)]:
+        params = {a.arg for a in scope.args.posonlyargs + scope.args.args + scope.args.kwonlyargs}
+        captured = set()
+        for n in _scope_nodes(scope):
+            if isinstance(n, (ast.FunctionDef, ast.Lambda, ast.ListComp, ast.SetComp, ast.DictComp, ast.GeneratorExp)) and n is not scope:
+                captured |= _names(n)
+        loads = {}
+        for n in _scope_nodes(scope):
+            if isinstance(n, ast.Name) and isinstance(n.ctx, ast.Load):
+                loads[n.id] = loads.get(n.id, 0) + 1
+        for owner, fld in _scope_blocks(scope):
+            body = getattr(owner, fld)
+            for i, st in enumerate(body):
+                if not (isinstance(st, ast.Assign) and len(st.targets) == 1 and isinstance(st.targets[0], ast.Name)
+                        and isinstance(st.value, ast.Name)):
+                    continue
+                x, y = st.targets[0].id, st.value.id
+                if x == y or y in params or x in captured or y in captured:
+                    continue
+                region = []
+                for s2 in body[i + 1:]:
+                    if any(isinstance(n, ast.Name) and n.id in (x, y) and isinstance(n.ctx, (ast.Store, ast.Del)) for n in ast.walk(s2)):
+                        break
+                    region.append(s2)
+                uses = [n for s2 in region for n in ast.walk(s2) if isinstance(n, ast.Name) and n.id == y and isinstance(n.ctx, ast.Load)]
+                if uses and len(uses) + 1 == loads.get(y, 0):
+                    for u in uses:
+                        u.id = x
+                    loads[y] = 1
+                    loads[x] = loads.get(x, 0) + len(uses)
+                    changed = True
+    return changed
+
+
 # ---------------------------------------------------------------------------------------------------- C11 single assignment
 def propagate_single_assignment_copies(fn):
     """`x = y` where both x and y are bound exactly once in the function (y may be a parameter that is never rebound):
@@ -1678,15 +1974,131 @@ def propagate_single_assignment_copies(fn):
 
 
 # ---------------------------------------------------------------------------------------------------- pipeline
+_cv_counter = [0]
+
+
+def rename_comprehension_vars(fn):
+    """Comprehension variables live in the comprehension's own scope: give each a name of its own, so that a function
+    local of the same spelling is not mistaken for it (innermost comprehensions first)."""
+    comps = [n for n in ast.walk(fn) if isinstance(n, (ast.ListComp, ast.SetComp, ast.DictComp, ast.GeneratorExp))]
+    for c in reversed(comps):
+        ren = {}
+        for g in c.generators:
+            for t in ast.walk(g.target):
+                if isinstance(t, ast.Name) and t.id not in ren:
+                    _cv_counter[0] += 1
+                    ren[t.id] = "%s__v%d" % (t.id, _cv_counter[0])
+        first = c.generators[0].iter
+        skip = {id(n) for n in ast.walk(first)}
+        for n in ast.walk(c):
+            if isinstance(n, ast.Name) and n.id in ren and id(n) not in skip:
+                n.id = ren[n.id]
+
+
+def expand_star_tuples(fn):
+    """f(*t) where t is bound once, outside any loop, to a tuple/list display of names that are themselves never rebound
+    afterwards (parameters that are not assigned, or single non-loop assignments), and t is used for nothing else:
+    the display's elements are written at the call.  `f(*(a, b))` -> `f(a, b)`."""
+    for scope in [n for n in ast.walk(fn) if isinstance(n, ast.FunctionDef)]:
+        stores = {}
+        in_loop = set()
+        for n in _scope_nodes(scope):
+            if isinstance(n, (ast.For, ast.While)):
+                for m in ast.walk(n):
+                    in_loop.add(id(m))
+        for n in _scope_nodes(scope):
+            if isinstance(n, ast.Name) and isinstance(n.ctx, (ast.Store, ast.Del)):
+                stores.setdefault(n.id, []).append(n)
+        loads = {}
+        for n in ast.walk(scope):
+            if isinstance(n, ast.Name) and isinstance(n.ctx, ast.Load):
+                loads[n.id] = loads.get(n.id, 0) + 1
+        cands = {}
+        for owner, fld in _scope_blocks(scope):
+            for st in getattr(owner, fld):
+                if isinstance(st, ast.Assign) and len(st.targets) == 1 and isinstance(st.targets[0], ast.Name) \
+                        and isinstance(st.value, (ast.Tuple, ast.List)) and id(st) not in in_loop:
+                    t = st.targets[0].id
+                    if len(stores.get(t, [])) != 1:
+                        continue
+                    if all(isinstance(e, ast.Constant) or (isinstance(e, ast.Name) and (len(stores.get(e.id, [])) == 0 or
+                           (len(stores.get(e.id, [])) == 1 and id(stores[e.id][0]) not in in_loop))) for e in st.value.elts):
+                        cands[t] = (st, owner, fld)
+        if cands:
+            star_uses = {}
+            for n in ast.walk(scope):
+                if isinstance(n, ast.Call):
+                    for a in n.args:
+                        if isinstance(a, ast.Starred) and isinstance(a.value, ast.Name) and a.value.id in cands:
+                            star_uses[a.value.id] = star_uses.get(a.value.id, 0) + 1
+            for t, (st, owner, fld) in cands.items():
+                if star_uses.get(t, 0) and star_uses[t] == loads.get(t, 0):
+                    for n in ast.walk(scope):
+                        if isinstance(n, ast.Call):
+                            new = []
+                            for a in n.args:
+                                if isinstance(a, ast.Starred) and isinstance(a.value, ast.Name) and a.value.id == t:
+                                    new.extend(copy.deepcopy(e) for e in st.value.elts)
+                                else:
+                                    new.append(a)
+                            n.args = new
+                    body = getattr(owner, fld)
+                    body.remove(st)
+                    if not body:
+                        body.append(ast.Pass())
+    for n in ast.walk(fn):
+        if isinstance(n, ast.Call) and any(isinstance(a, ast.Starred) and isinstance(a.value, (ast.Tuple, ast.List)) for a in n.args):
+            new = []
+            for a in n.args:
+                if isinstance(a, ast.Starred) and isinstance(a.value, (ast.Tuple, ast.List)):
+                    new.extend(a.value.elts)
+                else:
+                    new.append(a)
+            n.args = new
+
+
+def local_helpers(fn):
+    """Nested functions of fn that are only ever CALLED by name (never passed around, returned or stored), are not
+    recursive, take no */** parameters and declare nothing nonlocal/global: a call of such a closure is its body."""
+    out = {}
+    for st in _scope_nodes(fn):
+        if not isinstance(st, ast.FunctionDef) or st.decorator_list or st.args.vararg or st.args.kwarg:
+            continue
+        nm = st.name
+        if any(isinstance(n, (ast.Nonlocal, ast.Global, ast.Yield, ast.YieldFrom)) for n in ast.walk(st)):
+            continue
+        if any(isinstance(n, ast.Name) and n.id == nm for n in ast.walk(st)):
+            continue                      # recursive
+        uses = [n for n in ast.walk(fn) if isinstance(n, ast.Name) and n.id == nm]
+        called = [n for n in ast.walk(fn) if isinstance(n, ast.Call) and isinstance(n.func, ast.Name) and n.func.id == nm]
+        defs = [n for n in _scope_nodes(fn) if isinstance(n, ast.FunctionDef) and n.name == nm]
+        if len(defs) == 1 and uses and len(uses) == len(called):
+            out[nm] = st
+    return out
+
+
 def canonical(fn, helpers, sigs=None):
     SIGNATURES[0] = sigs or {}
     f = copy.deepcopy(fn)
     strip(f)
+    rename_comprehension_vars(f)
     _Idioms().visit(f)
     ast.fix_missing_locations(f)
-    if helpers:
-        Inliner(helpers).run(f)
+    expand_star_tuples(f)
+    loc = local_helpers(f)
+    if helpers or loc:
+        hs = dict(helpers)
+        hs.update(loc)
+        Inliner(hs).run(f)
+        # closures that are no longer referenced disappear
+        for owner, fld in _blocks_of(f):
+            body = getattr(owner, fld)
+            keep = [x for x in body if not (isinstance(x, ast.FunctionDef) and x.name in loc
+                                            and not any(isinstance(n, ast.Name) and n.id == x.name for n in ast.walk(f)))]
+            if len(keep) != len(body):
+                setattr(owner, fld, keep or [ast.Pass()])
         strip(f)
+        expand_star_tuples(f)
     _Idioms().visit(f)
     ast.fix_missing_locations(f)
     control_flow(f)
@@ -1701,7 +2113,8 @@ def canonical(fn, helpers, sigs=None):
         b = propagate(f)
         c = forward_single_use(f)
         d = propagate_single_assignment_copies(f)
-        if not (a or b or c or d):
+        e = merge_copies(f)
+        if not (a or b or c or d or e):
             break
     _Idioms().visit(f)
     control_flow(f)
@@ -1709,6 +2122,33 @@ def canonical(fn, helpers, sigs=None):
     ast.fix_missing_locations(f)
     digest, _ = A.alpha_form(f)
     return digest, f
+
+
+def inlined_only(fn, helpers):
+    """fn with the calls of `helpers` (functions the reference does not have) and of its own only-called closures replaced
+    by their bodies; nothing else is rewritten.  Used for functions that are NOT refactorings of the reference: the rules
+    then see the code the call executes instead of a call they know nothing about.  None if nothing was inlined."""
+    f = copy.deepcopy(fn)
+    before = ast.dump(f)
+    expand_star_tuples(f)
+    loc = local_helpers(f)
+    hs = dict(helpers)
+    hs.update(loc)
+    if not hs:
+        return None
+    inl = Inliner(hs)
+    inl.run(f)
+    for owner, fld in _blocks_of(f):
+        body = getattr(owner, fld)
+        keep = [x for x in body if not (isinstance(x, ast.FunctionDef) and x.name in loc
+                                        and not any(isinstance(n, ast.Name) and n.id == x.name for n in ast.walk(f)))]
+        if len(keep) != len(body):
+            setattr(owner, fld, keep or [ast.Pass()])
+    expand_star_tuples(f)
+    if ast.dump(f) == before:
+        return None
+    ast.fix_missing_locations(f)
+    return f
 
 
 def load_reference():
@@ -1863,6 +2303,10 @@ def _digests(jobs):
         return [_canon_job(j) for j in jobs]
 
 
+def _names_of_reference(ref, m):
+    return {q.split(".")[-1] for q, _, _, _ in _function_slots(ref[m])}
+
+
 def restore_equivalent(trees, tree_digest=None):
     """Replace every function that is a refactoring of its reference counterpart by the reference function.
     Returns {module: [names replaced]}.  `tree_digest` (digest of the analysed sources) keys an on-disk memo under
@@ -1923,9 +2367,19 @@ def restore_equivalent(trees, tree_digest=None):
             ast.copy_location(new, node)
             container[container.index(node)] = new
             replaced.setdefault(m, []).append(q)
+        else:
+            # not a refactoring of the reference: analysed as written, except that calls of newly extracted helpers /
+            # closures are replaced by their bodies (behaviour preserving) so that the rules see what the call does
+            try:
+                new = inlined_only(node, {k: v for k, v in hc.items() if (k if isinstance(k, str) else k[1]) not in _names_of_reference(ref, m)})
+            except RecursionError:
+                new = None
+            if new is not None:
+                container[container.index(node)] = new
+                replaced.setdefault(m + ":inlined", []).append(q)
     for m, tree in trees.items():
         # helpers that are no longer referenced are dropped from the analysed tree
-        if replaced.get(m):
+        if replaced.get(m) or replaced.get(m + ":inlined"):
             rq = {q for q, _, _, _ in _function_slots(ref[m])}
             for q, container, idx, node in sorted(_function_slots(tree), key=lambda t: -t[2]):
                 if q not in rq:
